@@ -13,6 +13,7 @@ visited atoms lie outside it); mutagen's own reader (`MP4Tags.load` / `__parse_d
 -/
 import MutagenModel.Proofs.Container.Mp4New
 import MutagenModel.Proofs.Mp4Tags
+import MutagenModel.Proofs.Container.Mp4Reader
 set_option linter.unusedVariables false
 namespace Mutagen.C01
 open Mutagen Mutagen.Mp4C
@@ -129,5 +130,63 @@ theorem mp4_saved_tags_read_back (mem : Bool) (L : Layout) (h : L.OK) (items : L
       mp4DecodeItems (its.length + 1) (renderList cs) = some its := by
   obtain ⟨g, T, h1, h2, h3⟩ := mp4_saved_ilst_found mem L h items pad hfit hno
   exact ⟨g, T, items, h1, h2, h3, by rw [hitems]; exact mp4_items_decode its hok _ (by omega)⟩
+
+/-! ### mutagen's own reader (`MP4Tags.load`, `__parse_data`, the typed parsers): Model/Container/Mp4Reader.lean
+
+The reader is modelled statement by statement (every raise, the generator order of `__parse_data`, `_failed_atoms`) and
+tied to /repo on generated `ilst` contents of every kind, damaged ones included (harness/mp4file_tie.py `run_reader`).
+Its input is the list `(name, atom.length, payload)` of the children of `ilst` — what `tagsPure` / `tagsM` read; for a file
+a save left, these are the item atoms `mp4_saved_ilst_found` finds.  The theorems below are the reader on what the codec
+renders; the step "the payloads mutagen's atom reader hands over ARE those bytes" is stated for the strict walker only
+(`mp4_saved_ilst_found`), not yet for `atom.read`. -/
+
+/-- `__parse_data` over the `data` atoms the codec renders yields exactly their (version, flags, payload), in order,
+whatever the typed parser does with them -/
+theorem mp4_parse_data_reads_items {σ : Type} (f : σ → Nat × Nat × Bytes → Mp4R.POut σ) (ds : List Mp4Tags.Data)
+    (h : ∀ d ∈ ds, Mp4Tags.DataOK d) (st : σ) :
+    Mp4R.parseData ((Mp4R.itemBody ds).length + 8) (Mp4R.itemBody ds) f st = Mp4R.foldP f st ds :=
+  Mp4R.parseData_items f ds h st
+
+/-- C01 (a), text atoms (the known ones of the `__atoms` table and unknown names alike): what `__render_text` writes
+for a list of strings — any Unicode scalar values — mutagen's own reader returns as the same strings in the same order,
+added under the atom's name (`self.setdefault(key, []).extend(values)`) -/
+theorem mp4_saved_tags_read_back_own_reader (t : Mp4R.Tags) (name : Bytes) (texts : List (List Nat))
+    (hk : Mp4R.kindOf name = none ∨ Mp4R.kindOf name = some .text)
+    (hs : ∀ x ∈ texts, ∀ c ∈ x, Utf8.Scalar c) (hl : ∀ x ∈ texts, (Utf8.encode x).length + 16 < 256 ^ 4) :
+    Mp4R.loadChild t name ((Mp4R.itemBody (texts.map fun x => ⟨0, 1, Utf8.encode x⟩)).length + 8)
+        (Mp4R.itemBody (texts.map fun x => ⟨0, 1, Utf8.encode x⟩)) =
+      some { t with items := Mp4R.addMulti name (.text texts) t.items } := by
+  unfold Mp4R.loadChild
+  rcases hk with hk | hk
+  · simp only [hk, Mp4R.parseText_rendered false texts hs hl]
+  · simp only [hk, Mp4R.parseText_rendered true texts hs hl]
+
+/-- … integer atoms (`tmpo`, `plID`, …): the values `__render_integer` accepts, in the width it chooses -/
+theorem mp4_saved_ints_read_back_own_reader (vals : List (Int × Nat × Bytes))
+    (h : ∀ v ∈ vals, Mp4Tags.renderInt v.1 v.2.1 = some v.2.2) :
+    Mp4R.parseInts ((Mp4R.itemBody (vals.map fun v => ⟨0, 21, v.2.2⟩)).length + 8)
+      (Mp4R.itemBody (vals.map fun v => ⟨0, 21, v.2.2⟩)) = .ok (vals.map (·.1)) :=
+  Mp4R.parseInts_rendered vals h
+
+/-- … `trkn` / `disk` pairs up to (65535, 65535) -/
+theorem mp4_saved_pairs_read_back_own_reader (trailing : Bool) (ps : List (Nat × Nat)) (h : ∀ p ∈ ps, p.1 < 65536 ∧ p.2 < 65536) :
+    Mp4R.parsePairs ((Mp4R.itemBody (ps.map fun p => ⟨0, 0, Mp4Tags.renderPair p.1 p.2 trailing⟩)).length + 8)
+      (Mp4R.itemBody (ps.map fun p => ⟨0, 0, Mp4Tags.renderPair p.1 p.2 trailing⟩)) = .ok ps :=
+  Mp4R.parsePairs_rendered trailing ps h
+
+/-- the reader on concrete children: a title, a track number, a tempo, a compilation flag, a cover, a freeform item, an
+ID3v1 genre (→ `©gen`), an unknown atom with a non-text type (→ `_failed_atoms`), and a `trkn` whose payload is too
+short for `struct.unpack` (→ the whole load fails) -/
+example :
+    (Mp4R.loadTags [([0xa9, 0x6e, 0x61, 0x6d], 27, Mp4R.itemBody [⟨0, 1, [0x68, 0x69, 0x21]⟩]),
+                    ([0x74, 0x72, 0x6b, 0x6e], 32, Mp4R.itemBody [⟨0, 0, [0, 0, 0, 3, 0, 9, 0, 0]⟩]),
+                    ([0x63, 0x70, 0x69, 0x6c], 25, Mp4R.itemBody [⟨0, 21, [1]⟩]),
+                    ([0x67, 0x6e, 0x72, 0x65], 26, Mp4R.itemBody [⟨0, 0, [0, 2]⟩]),
+                    ([0x78, 0x78, 0x78, 0x78], 25, Mp4R.itemBody [⟨0, 13, [7]⟩])] {}).map (fun t => (t.items, t.failed)) =
+      some ([([0xa9, 0x6e, 0x61, 0x6d], .text [[0x68, 0x69, 0x21]]), ([0x74, 0x72, 0x6b, 0x6e], .pairs [(3, 9)]),
+             ([0x63, 0x70, 0x69, 0x6c], .bool true), (Mp4R.nGen, .text [[67, 108, 97, 115, 115, 105, 99, 32, 82, 111, 99, 107]])],
+            [([0x78, 0x78, 0x78, 0x78], [Mp4R.itemBody [⟨0, 13, [7]⟩]])]) ∧
+    (Mp4R.loadTags [([0x74, 0x72, 0x6b, 0x6e], 29, Mp4R.itemBody [⟨0, 0, [0, 0, 0, 3, 0]⟩])] {}).isNone = true := by
+  decide +kernel
 
 end Mutagen.C01
